@@ -71,7 +71,7 @@ def make_handlers(history, reply_delay=None):
         def __init__(self, exc, message, *args):
             AbstractErrorHandler.__init__(self, exc, message)
             history.add(ev='err-ctor', cls='ErrHandler', exc=type(exc).__name__, msg=message,
-                        thread=threading.get_ident())
+                        thread=threading.get_ident(), args=list(args))
 
         def reply(self):
             r = 'ERR|%s|%s' % (type(self.exc).__name__, digest(self.incoming_message))
@@ -196,11 +196,11 @@ def expected_outcome(payload_text, registered):
     fields = first.split(f)
     msh9 = fields[8].strip() if len(fields) > 8 else None
     if msh9 in registered:
-        return ('ok', registered[msh9])
+        return ('ok', registered[msh9], msh9)
     return ('err', 'UnsupportedMessageType')
 
 
-def check_connection(evs, sent_payload, received, ending, registered, kind):
+def check_connection(evs, sent_payload, received, ending, registered, kind, args_by_key=None):
     """evs: handler events attributed to this connection; kind: 'framed' | 'malformed' | 'degenerate'
     -> list of (cause, detail)"""
     out = []
@@ -231,6 +231,12 @@ def check_connection(evs, sent_payload, received, ending, registered, kind):
     else:
         if c['ev'] != 'err-ctor' or c.get('exc') != want[1]:
             out.append(('wrong-error-routing', {'got': c.get('cls'), 'exc': c.get('exc'), 'want': want[1]}))
+    if args_by_key is not None:
+        # the handler is built with the extra arguments it was registered with
+        key = want[2] if want[0] == 'ok' else 'ERR'
+        if key in args_by_key and c.get('args') is not None and list(c['args']) != list(args_by_key[key]):
+            out.append(('handler-built-without-its-registered-arguments', {'key': key, 'got': c.get('args'),
+                                                                         'registered': list(args_by_key[key])}))
     if received != r['reply'].encode('utf-8'):
         out.append(('client-received-other-bytes-than-the-reply', {'received': received[:80], 'reply': r['reply'][:80]}))
     return out
